@@ -1023,3 +1023,34 @@ def shrink_value(ty, v):
     if k == "map":
         return ["map", []]
     return v
+
+
+def spelling_directed_package(namespace="Sp"):
+    """Definitions whose dependencies run through *imported* generics and aliases, local generics used
+    inside them, and nested containers: written in any order / file split they are the same model (C13)."""
+    base = Package(namespace + "Base")
+    P = lambda n: ("prim", n)
+    base.defs.append({"kind": "record", "name": "Box", "tparams": ["T"], "fields": [("value", ("tparam", "T")), ("n", P("uint8"))]})
+    base.defs.append({"kind": "alias", "name": "Wrap", "tparams": ["T"], "type": ("vec", ("tparam", "T"), None)})
+    base.defs.append({"kind": "enum", "name": "Tag", "flags": False, "base": None, "auto": True, "values": [("a", 0), ("b", 1)]})
+    base.defs.append({"kind": "record", "name": "Two", "tparams": ["A", "B"], "fields": [("a", ("tparam", "A")), ("b", ("tparam", "B"))]})
+    pkg = Package(namespace)
+    pkg.imports.append(base)
+    B = namespace + "Base."
+    pkg.defs.append({"kind": "record", "name": "Sample", "tparams": [], "fields": [("t", P("float32")), ("tag", ("named", B + "Tag", []))]})
+    pkg.defs.append({"kind": "record", "name": "Inner", "tparams": ["T"], "fields": [("v", ("tparam", "T"))]})
+    pkg.defs.append({"kind": "record", "name": "Pair2", "tparams": ["T"], "fields": [("a", ("named", "Inner", [("tparam", "T")])), ("b", ("tparam", "T"))]})
+    pkg.defs.append({"kind": "alias", "name": "BoxedSample", "tparams": [], "type": ("named", B + "Box", [("named", "Sample", [])])})
+    pkg.defs.append({"kind": "alias", "name": "BoxedPair", "tparams": [], "type": ("named", B + "Box", [("named", "Pair2", [P("int32")])])})
+    pkg.defs.append({"kind": "alias", "name": "WrapS", "tparams": [], "type": ("named", B + "Wrap", [("named", "Sample", [])])})
+    pkg.defs.append({"kind": "alias", "name": "TwoLocal", "tparams": [], "type": ("named", B + "Two", [("named", "WrapS", []), ("named", "BoxedPair", [])])})
+    pkg.defs.append({"kind": "record", "name": "Holder", "tparams": [],
+                     "fields": [("x", ("named", "BoxedSample", [])),
+                                ("y", ("named", B + "Box", [("named", B + "Wrap", [("named", "Sample", [])])])),
+                                ("z", ("map", P("string"), ("named", "BoxedPair", []))),
+                                ("w", ("opt", ("named", "TwoLocal", [])))]})
+    pkg.defs.append({"kind": "protocol", "name": "PSp", "steps": [
+        ("head", ("named", "Holder", []), False),
+        ("boxes", ("named", B + "Box", [("named", "Pair2", [("named", "Sample", [])])]), True),
+        ("wraps", ("named", "WrapS", []), True)]})
+    return pkg
